@@ -307,8 +307,9 @@ def c04(tier, seed):
     res.coverage["status_histogram"] = meta["status_hist"]
     res.coverage["exhaustive"] = (sample == 0)
     res.coverage["rule"] = ("degenerate shapes: every cone list of <= 3 cones over {Zero(0..2),NN(0..2),SOC(1..3),Exp,Pow,GenPow,PSD(1..2)} "
-                            "with total size <= 5 (6 thorough), n in 1..2, six data variants (all-zero, small ints, duplicate rows, "
-                            "1e+-12 magnitudes, infeasible rhs, unbounded), max_iter in {0,1,2,200}, time_limit in {inf,0,1e-9}; "
+                            "with total size <= 5 (6 thorough), n in 1..2, eight data variants (all-zero, small ints, duplicate rows, "
+                            "1e+-12 magnitudes, infeasible rhs, unbounded, and independent magnitude ladders 1e0..1e300 / 1e0..1e-300 for "
+                            "A, b, q, P), every third run verbose (printing to a buffer), max_iter in {0,1,2,200}, time_limit in {inf,0,1e-9}; "
                             "quick samples 1500 of them by seed; distinct by (cones,n,variant,max_iter)")
     # construction guard
     v2 = validate_simple(res, "C04", "Construct.tla", "Construct.cfg", dm, None, "dims", "dims", nshards=1,
@@ -321,6 +322,14 @@ def c04(tier, seed):
     v3 = validate_family(res, "C04", tr3, cs3, "timelimit")
     add_cov(res, v3, m3["runs"], [], "timelimit")
     res.coverage["timelimit_status_histogram"] = m3["status_hist"]
+    # scripted failures at the loop's decision points (scaling, refactorisation, affine/combined solves, step length)
+    tr4, cs4, mt4 = [os.path.join(wd, "faults" + x) for x in (".ndjson", ".cases.ndjson", ".meta.json")]
+    run_vh(["faults", "--seed", seed, "--count", 400 if tier == "quick" else 8000, "--out", tr4, "--cases", cs4, "--meta", mt4])
+    m4 = json.load(open(mt4))
+    v4 = validate_family(res, "C04", tr4, cs4, "faults")
+    add_cov(res, v4, m4["runs"], [], "faults")
+    res.coverage["fault_points"] = m4["points"]
+    res.coverage["fault_status_histogram"] = m4["status_hist"]
     # the timers behind solve_time / time_limit: Timers.tla behaviours replayed on the real Timers with real sleeps
     from props import structs
     rt = structs.spec_to_impl(res, "C04", "Timers.tla", ["MC_Timers_5.cfg" if tier == "quick" else "MC_Timers.cfg"], "timers-replay", wd, "timers",
